@@ -115,6 +115,28 @@ fn main() {
             };
             let ctx = Ctx { id: p.id, tier, seed, shards, strict: std::env::var("QV_STRICT").is_ok() };
             if std::env::var("QV_INNER").is_ok() || std::env::var("QV_NO_SUPERVISOR").is_ok() {
+                // saved inputs of repaired defects (regressions/<Cxx>/*.json, ordinary replay files)
+                // are re-judged on every run, whatever the generators happen to produce
+                let mut regressed = false;
+                let dir = format!("{VERIF_ROOT}/regressions/{}", p.id);
+                let mut files: Vec<std::path::PathBuf> = std::fs::read_dir(&dir).map(|rd| rd.flatten().map(|e| e.path()).filter(|f| f.extension().is_some_and(|x| x == "json")).collect()).unwrap_or_default();
+                files.sort();
+                for f in files {
+                    let Ok(text) = std::fs::read_to_string(&f) else { continue };
+                    let Ok(j) = serde_json::from_str::<serde_json::Value>(&text) else { continue };
+                    let payload = j["replay"].clone();
+                    let replay = p.replay;
+                    let outcome = match std::thread::Builder::new().stack_size(256 * 1024 * 1024).spawn(move || replay(&payload)).expect("spawn").join() {
+                        Ok(r) => r,
+                        Err(pn) => Err(format!("replay panicked: {}", panic_message(&pn))),
+                    };
+                    if let Err(m) = outcome {
+                        println!("VIOLATION property={} replay={}", p.id, f.display());
+                        println!("  signature: regression:{}", j["signature"].as_str().unwrap_or(""));
+                        println!("  a repaired defect is back: {}", truncate(&m, 1500));
+                        regressed = true;
+                    }
+                }
                 // the coordinating thread also runs checked code (witnesses, corpus filters)
                 let run = p.run;
                 let code = match std::thread::Builder::new().stack_size(512 * 1024 * 1024).spawn(move || run(&ctx)).expect("spawn").join() {
@@ -124,7 +146,7 @@ fn main() {
                         2
                     }
                 };
-                std::process::exit(code);
+                std::process::exit(if regressed && code != 2 { 1 } else { code });
             }
             std::process::exit(supervise(&ctx, &args[2..]));
         }
